@@ -47,6 +47,11 @@ Cases ==
         : c \in Closed2} \cup
     {[m |-> "closest", op |-> "curve", dim |-> 3, pts |-> c, fc |-> FALSE, sc |-> 0, tolU |-> 0, qs |-> QSeq(Thin(Window(c, FALSE)))]
         : c \in Curves3} \cup
+    \* the same queries against curves DERIVED by transformed_by (1: translation, 2: quarter turn + translation)
+    {[m |-> "closest", op |-> "curve", dim |-> 3, pts |-> c, fc |-> FALSE, sc |-> 0, tolU |-> 0, tf |-> tf, qs |-> QSeq(Thin(Window(c, FALSE)))]
+        : c \in Curves3, tf \in 1..2} \cup
+    {[m |-> "closest", op |-> "curve", dim |-> 2, pts |-> c, fc |-> FALSE, sc |-> 0, tolU |-> 0, tf |-> tf, qs |-> QSeq(Thin(Window(c, TRUE)))]
+        : c \in {x \in Curves2 : Len(x) <= MaxCurveV}, tf \in 1..2} \cup
     {[m |-> "closest", op |-> "mesh", name |-> ms.name, vpos |-> ms.vpos, faces |-> ms.faces, sc |-> (IF tf = 1 THEN -11 ELSE 0), tf |-> tf,
       caps |-> <<2, 4, 5, 8>>, angles |-> <<30, 45, 60>>, qs |-> QSeq(Thin(Window(ms.vpos, FALSE)))]
         : ms \in Meshes, tf \in 0..2} \cup
